@@ -52,66 +52,51 @@ def invertMeaning (a : Bits) : List Py.Act → Option Bits
   | [⟨"L1 = self._copy()", []⟩, ⟨"L1._invert_all()", []⟩, ⟨"return L1", []⟩] => some (a.map (!·))
   | _ => none
 
+/-- Shape-agnostic closing tactic for the ties below (the same script must survive harmless rewrites of the Python
+    source — renamed locals, `not n` ↔ `n == 0`, `min(a, b)` ↔ `min(b, a)` ↔ a conditional, merged / swapped guards,
+    commuted sums …): unfold `min` into its two cases, turn the Boolean tests into propositions, split every `if` /
+    `match` on both sides, then on every leaf evaluate the meaning function on the now concrete trace and close by
+    linear arithmetic, by simplification with the case hypotheses, or by `grind`. -/
+macro "src_auto" : tactic => `(tactic| (
+  try simp only [Int.min_def, Nat.min_def, Int.max_def, Nat.max_def]
+  try simp only [decide_eq_true_eq, decide_eq_false_iff_not, Bool.not_eq_true', Bool.not_eq_false', Bool.and_eq_true,
+    Bool.or_eq_true, Bool.and_eq_false_imp, Bool.or_eq_false_iff, ne_eq, Decidable.not_not]
+  repeat' split
+  all_goals (first
+    | omega
+    | (simp_all [Except.map, Except.bind, shlMeaning, shrMeaning, ishlMeaning, ishrMeaning, invertMeaning, absSlice] <;>
+        first | omega | grind)
+    | grind [Except.map, Except.bind, shlMeaning, shrMeaning, ishlMeaning, ishrMeaning, invertMeaning, absSlice])))
+
 /-- `Bits.__lshift__` as the source has it now = `C16.shl`, for every content and every shift count. -/
 theorem lshift_eq (a : Bits) (n : Int) :
     (Gen.Src.lshift (a.length : Int) n).map (shlMeaning a) = (shl a n).map some := by
   unfold Gen.Src.lshift shl
-  by_cases hn : n < 0
-  · simp [hn, Except.map]
-  by_cases hl : a.length = 0
-  · simp [hn, hl, Except.map]
-  have hk : (min n (a.length : Int)).toNat = min n.toNat a.length := by omega
-  have hc : (min n (a.length : Int) = (a.length : Int)) ↔ (min n.toNat a.length = a.length) := by omega
-  simp [hn, hl, Except.map, shlMeaning, absSlice, hk, hc]
+  src_auto
 
 /-- `Bits.__rshift__` as the source has it now = `C16.shr`. -/
 theorem rshift_eq (a : Bits) (n : Int) :
     (Gen.Src.rshift (a.length : Int) n).map (shrMeaning a) = (shr a n).map some := by
   unfold Gen.Src.rshift shr
-  by_cases hn : n < 0
-  · simp [hn, Except.map]
-  by_cases hl : a.length = 0
-  · simp [hn, hl, Except.map]
-  by_cases h0 : n = 0
-  · simp [hl, h0, Except.map, shrMeaning]
-  have hk : (min n (a.length : Int)).toNat = min n.toNat a.length := by omega
-  have hq : ((a.length : Int) - min n (a.length : Int)).toNat = a.length - min n.toNat a.length := by omega
-  have hc : ((0 : Int) = (a.length : Int) - min n (a.length : Int)) ↔ (a.length - min n.toNat a.length = 0) := by omega
-  simp [hn, hl, h0, Except.map, shrMeaning, absSlice, hk, hq, hc]
+  src_auto
 
 /-- `BitArray.__ilshift__` as the source has it now = `C16.ishl`. -/
 theorem ilshift_eq (a : Bits) (n : Int) :
     (Gen.Src.ilshift (a.length : Int) n).map (ishlMeaning a) = (ishl a n).map some := by
   unfold Gen.Src.ilshift ishl
-  by_cases hn : n < 0
-  · simp [hn, Except.map]
-  by_cases hl : a.length = 0
-  · simp [hn, hl, Except.map]
-  by_cases h0 : n = 0
-  · simp [hl, h0, Except.map, ishlMeaning]
-  have hk : (min n (a.length : Int)).toNat = min n.toNat a.length := by omega
-  simp [hn, hl, h0, Except.map, ishlMeaning, hk]
+  src_auto
 
 /-- `BitArray.__irshift__` as the source has it now = `C16.ishr`. -/
 theorem irshift_eq (a : Bits) (n : Int) :
     (Gen.Src.irshift (a.length : Int) n).map (ishrMeaning a) = (ishr a n).map some := by
   unfold Gen.Src.irshift ishr
-  by_cases hn : n < 0
-  · simp [hn, Except.map]
-  by_cases hl : a.length = 0
-  · simp [hn, hl, Except.map]
-  by_cases h0 : n = 0
-  · simp [hl, h0, Except.map, ishrMeaning]
-  have hk : (min n (a.length : Int)).toNat = min n.toNat a.length := by omega
-  simp [hn, hl, h0, Except.map, ishrMeaning, hk]
+  src_auto
 
 /-- `Bits.__invert__` as the source has it now = `C16.bnot` (`bitstring.Error` for the empty bitstring). -/
 theorem invert_eq (a : Bits) :
     (Gen.Src.invert (a.length : Int)).map (invertMeaning a) = (bnot a).map some := by
   unfold Gen.Src.invert bnot
-  by_cases hl : a.length = 0
-  · simp [hl, Except.map]
-  simp [hl, Except.map, invertMeaning]
+  src_auto
 
 /-- Non-vacuity: on a concrete input the translated function really produces the three-effect trace. -/
 example : (Gen.Src.lshift 4 1).map (shlMeaning [true, false, true, true]) = .ok (some [false, true, true, false]) := by
